@@ -40,9 +40,13 @@ META = dict(
 META["text"] += " R2: the card identifier built from a sampled CVR is a function of that CVR's id alone."
 META["text"] += ' R1 also: the per-sample loop skips a number only under a guard equivalent to "outside the format\'s range" (1..total for Dominion, 0..total-1 for Hart).'
 META["text"] += ' R2 also: the sample is traversed once; raire_to_dominion returns the records it was given with only their id re-written.'
+META["text"] += ' (R4, N, frame condition on arguments) a look-up reads the sample and the manifest: every function in scope changes the objects it is handed only in the ways confirmed for it (aud.ARG_EFFECTS); references are followed through aliases, elements, attributes, loop variables, .get/.items/.values and np.asarray, resolved by the bindings that reach the use.'
 
 
 def run(chk):
+    from .. import aud as _aud8
+    _aud8.argument_effects(chk, 'C17.R4', 'shangrla/formats/Dominion.py', 'a look-up reads the sample and the manifest', only=None)
+    _aud8.argument_effects(chk, 'C17.R4', 'shangrla/formats/Hart.py', 'a look-up reads the sample and the manifest', only=None)
     chk.explain(
         "R1 searchsorted look-up arithmetic per format; R2 selection order, phantom MVRs, CVR-driven lookup; R3 manifest preparation: "
         "assertions first, phantom batch size and placement, cumulative counts after the append, pandas API resolved against the "
